@@ -334,6 +334,12 @@ def _bool_eval(e, env):
                         env2[gen.target.id] = item
                         if all(_bool_eval(c, env2) for c in gen.ifs):
                             args.append(_bool_eval(v.elt, env2))
+                elif isinstance(v, ast.Call) and dotted(v.func) == 'map' and len(v.args) == 2 \
+                        and (dotted(v.args[0]) or '').split('.')[-1] in ('Not', 'And', 'Or'):
+                    # *map(sympy.Not, skipped)  ==  *(sympy.Not(c) for c in skipped)
+                    op_ = (dotted(v.args[0]) or '').split('.')[-1]
+                    for item in _bool_eval(v.args[1], env):
+                        args.append((not item) if op_ == 'Not' else item)
                 else:
                     args.extend(_bool_eval(v, env))
             else:
@@ -362,7 +368,7 @@ def run_a8_truth(chk, A8, repo):
     for n in combos:
         own = n.targets[0].id
         lists = {x.id for x in ast.walk(n.value) if isinstance(x, ast.Name)} - {own, 'sympy', 'cond'}
-        lists = {x for x in lists if x not in ('And', 'Not', 'Or')}
+        lists = {x for x in lists if x not in ('And', 'Not', 'Or', 'map', 'list', 'tuple', 'iter')}
         if len(lists) != 1:
             raise AnalysisError(f'A8: cannot identify the list of skipped conditions in {unparse(n)[:80]} ({lists})')
         lst = lists.pop()
@@ -419,3 +425,194 @@ def run_a10(chk, A10, repo):
                                           'fixed')
     if n == 0:
         raise AnalysisError('A10: no helper call over accumulated record lists found in parsing.py')
+
+
+def run_a11(chk, A11, repo):
+    """protected functions (PLOG, PDZ, ...): guard, protected value and regular value as NM-TRAN documents them"""
+    import json
+    import re as _re
+    from sa.report import VERIF
+    spec = {k: v for k, v in json.loads((VERIF / 'specs/protected_funcs.json').read_text()).items() if not k.startswith('_')}
+    fm = repo.module('pharmpy.internals.expr.funcs')
+
+    def norm(e):
+        t = unparse(e)
+        t = _re.sub(r'\bsympy\.', '', t)
+        t = _re.sub(r'\b(Abs|abs)\(', 'abs(', t)
+        t = _re.sub(r'\b_smallz\b', 'SMALLZ', t)
+        return t.replace(' ', '')
+    for name, want in sorted(spec.items()):
+        f = fm.functions.get(name)
+        if f is None:
+            raise AnalysisError(f'A11: protected function {name} not found in funcs.py')
+        x = f.params[0] if f.params else 'x'
+        pw = next((c for c in ast.walk(f.node) if isinstance(c, ast.Call) and (dotted(c.func) or '').endswith('Piecewise')), None)
+        if pw is None or len(pw.args) != 2 or not all(isinstance(a, ast.Tuple) and len(a.elts) == 2 for a in pw.args):
+            raise AnalysisError(f'A11: {name} is not a two-branch Piecewise')
+        (val, cond), (other, dflt) = (a.elts for a in pw.args)
+        got = {'guard': norm(cond), 'value': norm(val), 'else': norm(other)}
+        exp = {k: v.replace('x', x).replace(' ', '') for k, v in want.items()}
+        exp = {k: v.replace('e' + x + 'p', 'exp') for k, v in exp.items()}      # 'exp' contains the letter x
+        ok = got == exp and isinstance(dflt, ast.Constant) and dflt.value is True
+        chk.instance(A11, f'{name}: {got["value"]} if {got["guard"]} else {got["else"]}: as documented {ok}')
+        if not ok:
+            chk.violation(A11, fm.rel, name, f'{got["value"]} if {got["guard"]} else {got["else"]}',
+                          f'NM-TRAN defines {name}(x) = {want["value"]} if {want["guard"]} else {want["else"]}',
+                          line=f.node.lineno,
+                          witness=f'abbreviated code calling {name} on a value on the other side of the guard (e.g. a '
+                                  f'negative argument of PDZ): the model evaluates to another number than NONMEM')
+
+
+def run_a12(chk, A12, repo):
+    """sequential parameters of a BLOCK(n) are placed row by row into the lower triangle (NM-TRAN's order, which is also the
+    order the parameter names were generated in): the iteration space of the filling loop for n = 3 is enumerated"""
+    from sa import iterspace
+    pm = repo.module('pharmpy.model.external.nonmem.parsing')
+    f = pm.functions.get('rvs_from_blocks')
+    if f is None:
+        raise AnalysisError('rvs_from_blocks not found')
+    n_found = 0
+    # symmetric stores M[a, b] = s together with M[b, a] = s in one loop body
+    for loop in [x for x in ast.walk(f.node) if isinstance(x, ast.For)]:
+        stores = [s_ for s_ in loop.body if isinstance(s_, ast.Assign) and isinstance(s_.targets[0], ast.Subscript)
+                  and isinstance(s_.targets[0].slice, ast.Tuple) and len(s_.targets[0].slice.elts) == 2]
+        pairs = {(unparse(s_.targets[0].value), unparse(s_.targets[0].slice.elts[0]), unparse(s_.targets[0].slice.elts[1]))
+                 for s_ in stores}
+        sym = [(m, a, b) for (m, a, b) in pairs if (m, b, a) in pairs and a != b]
+        if not sym:
+            continue
+        m, a, b = sorted(sym)[0]
+        consumes = any(isinstance(s_, ast.AugAssign) and isinstance(s_.op, ast.Add) for s_ in loop.body)
+        if not consumes:
+            continue
+        # the nest: this loop and the enclosing loops that bind a / b
+        nest = [loop]
+        cur = loop
+        while True:
+            bound = {x.id for l_ in nest for x in ast.walk(l_.target) if isinstance(x, ast.Name)}
+            if {a, b} <= bound:
+                break
+            parent = next((p for p in ast.walk(f.node) if isinstance(p, ast.For) and cur in p.body), None)
+            if parent is None:
+                break
+            nest.insert(0, parent)
+            cur = parent
+        size_names = {x.id for l_ in nest for x in ast.walk(l_.iter) if isinstance(x, ast.Name)} - \
+            {x.id for l_ in nest for x in ast.walk(l_.target) if isinstance(x, ast.Name)}
+        try:
+            envs = iterspace.iterations(nest, {nm: 3 for nm in size_names})
+        except iterspace.Unknown as e:
+            raise AnalysisError(f'A12: iteration space of the block filling loop not evaluable ({e})')
+        seq = [(max(e_[a], e_[b]), min(e_[a], e_[b])) for e_ in envs]
+        want = [(i, j) for i in range(3) for j in range(i + 1)]
+        n_found += 1
+        ok = seq == want
+        chk.instance(A12, f'rvs_from_blocks: `{m}[{a}, {b}]` filled in the order {seq} for n=3 (row-wise lower triangle: {ok})')
+        if not ok:
+            chk.violation(A12, pm.rel, f.qualname, f'for {unparse(nest[0].target)} in {unparse(nest[0].iter)}: {m}[{a}, {b}] = ...',
+                          f'the parameters of a BLOCK(n) come in NM-TRAN order (row by row of the lower triangle: {want}); '
+                          f'they are placed in the order {seq}', line=nest[0].lineno,
+                          witness='$OMEGA BLOCK(3) 1 0.1 2 0.2 0.3 3: OMEGA(2,2) becomes cov(ETA1, ETA3); with n <= 2 the '
+                                  'two orders coincide')
+    if n_found == 0:
+        raise AnalysisError('A12: symmetric filling loop of rvs_from_blocks not found')
+
+
+def run_a13(chk, A13, repo):
+    """$MODEL defaults: the default dose compartment is DEFDOSE, else the compartment named DEPOT, else the first that may
+    receive a dose; the default observation compartment is DEFOBS, else CENTRAL, else the first (NM-TRAN's precedence)"""
+    am = repo.module('pharmpy.model.external.nonmem.advan')
+    f = am.functions.get('parse_model_record')
+    if f is None:
+        raise AnalysisError('parse_model_record not found')
+    # variables that remember the compartment with a given name / option
+    by_name = {}
+    for I in [x for x in ast.walk(f.node) if isinstance(x, ast.If)]:
+        for c in [x for x in ast.walk(I.test) if isinstance(x, ast.Compare) and len(x.ops) == 1]:
+            lit = c.comparators[0].value if isinstance(c.comparators[0], ast.Constant) else (
+                c.left.value if isinstance(c.left, ast.Constant) else None)
+            if isinstance(lit, str) and isinstance(c.ops[0], (ast.Eq, ast.In)):
+                for s_ in I.body:
+                    if isinstance(s_, ast.Assign) and isinstance(s_.targets[0], ast.Name):
+                        by_name.setdefault(lit, s_.targets[0].id)
+    need = {'DEPOT': 'DEFDOSE', 'CENTRAL': 'DEFOBSERVATION'}
+    if not all(k in by_name for k in list(need) + list(need.values())):
+        raise AnalysisError(f'A13: compartment bookkeeping of parse_model_record not recognised ({sorted(by_name)})')
+
+    class Raised(Exception):
+        pass
+
+    def ev(e, env):
+        if isinstance(e, ast.Constant):
+            return e.value
+        if isinstance(e, ast.Name):
+            return env.get(e.id, f'<{e.id}>')
+        if isinstance(e, ast.IfExp):
+            return ev(e.body, env) if truth(e.test, env) else ev(e.orelse, env)
+        if isinstance(e, ast.BoolOp) and isinstance(e.op, ast.Or):
+            for v in e.values:
+                r = ev(v, env)
+                if r:
+                    return r
+            return r
+        return f'<{unparse(e)[:30]}>'
+
+    def truth(t, env):
+        if isinstance(t, ast.Compare) and len(t.ops) == 1 and isinstance(t.ops[0], (ast.Is, ast.IsNot)) \
+                and isinstance(t.comparators[0], ast.Constant) and t.comparators[0].value is None:
+            isnone = ev(t.left, env) is None
+            return isnone if isinstance(t.ops[0], ast.Is) else not isnone
+        if isinstance(t, ast.UnaryOp) and isinstance(t.op, ast.Not):
+            return not truth(t.operand, env)
+        if isinstance(t, ast.BoolOp):
+            vals = [truth(v, env) for v in t.values]
+            return all(vals) if isinstance(t.op, ast.And) else any(vals)
+        return bool(ev(t, env))
+
+    def run(stmts, env):
+        for s_ in stmts:
+            if isinstance(s_, ast.If):
+                run(s_.body if truth(s_.test, env) else s_.orelse, env)
+            elif isinstance(s_, ast.Assign) and isinstance(s_.targets[0], ast.Name):
+                env[s_.targets[0].id] = ev(s_.value, env)
+            elif isinstance(s_, ast.Raise):
+                raise Raised
+    # the statements after the loop over the compartments
+    loop = next((x for x in f.node.body if isinstance(x, ast.For)), None)
+    if loop is None:
+        raise AnalysisError('A13: loop over the compartments not found')
+    tail = f.node.body[f.node.body.index(loop) + 1:]
+    for named, explicit in need.items():
+        target = by_name[explicit]        # defdose / defobs
+        # explicit option absent, every other candidate present: the named compartment must win
+        env = {target: None}
+        for v in set(by_name.values()) | {x.id for s_ in tail for x in ast.walk(s_) if isinstance(x, ast.Name)}:
+            env.setdefault(v, f'<{v}>')
+        env[target] = None
+        env[by_name[named]] = f'<the compartment named {named}>'
+        try:
+            run(tail, env)
+            got = env[target]
+        except Raised:
+            got = 'raise'
+        ok = got == f'<the compartment named {named}>'
+        chk.instance(A13, f'no {explicit}: default is {got}')
+        if not ok:
+            chk.violation(A13, am.rel, f.qualname, f'{target} defaults to {got}',
+                          f'without {explicit} NM-TRAN takes the compartment named {named} first, then the first eligible one',
+                          line=f.node.lineno,
+                          witness=f'$MODEL COMP=(CENTRAL) COMP=(DEPOT) without DEFDOSE and without a CMT column: doses go '
+                                  f'to CENTRAL and bypass the absorption')
+        # explicit option present: it wins
+        env2 = dict(env)
+        env2[target] = f'<explicit {explicit}>'
+        try:
+            run(tail, env2)
+            got2 = env2[target]
+        except Raised:
+            got2 = 'raise'
+        chk.instance(A13, f'{explicit} given: {got2}')
+        if got2 != f'<explicit {explicit}>':
+            chk.violation(A13, am.rel, f.qualname, f'{target} = {got2} although {explicit} is given',
+                          f'an explicit {explicit} is overridden', line=f.node.lineno,
+                          witness=f'$MODEL with {explicit} on a compartment other than {named}')
